@@ -50,7 +50,7 @@ ASSUMPTIONS = [
 FLOORS = {
     'has:rejected-then-ok': 0.15,
     'has:future-chain': 0.004,
-    'op:illegal': 0.3,
+    'op:illegal': 0.22,
     'op:segment-ok': 0.1,
     'perm:all-legal': 0.003,
 }
